@@ -63,6 +63,9 @@ def groups(tier):
     # scale table (discharged against its documented table, generator shared with C10) and the six methods on concrete functions
     out.append(('contract:default-scale', ('dep', 'C10', 'run_scale', (tier,), {})))
     out.append(('default-steps-concrete', ('dconc',)))
+    # the rule cache shared by every object (a wrong key lets one Hessdiag call decide the rule of the next): its invariant is
+    # discharged here as well (generator shared with C09)
+    out.append(('contract:rule-cache', ('dep', 'C09', 'run_ci', (), {})))
     return out
 
 
@@ -442,6 +445,8 @@ def run_group(args):
 def replay_case(ob):
     import re
     nm = ob['name']
+    if nm.startswith('contract:rule-cache/'):
+        return dict(kind='C04.hrule')
     if nm.startswith('default-steps-concrete/') or nm.startswith('contract:default-scale/'):
         return dict(kind='C04.dconc')
     if nm.startswith('hessian-rule/'):
